@@ -61,7 +61,7 @@ def cc(name, sources, daemon=False, extra=None, always=False):
         cmd += [os.path.join(BUILD, "lib", "libdbus-internal.a"), "-L" + os.path.join(BUILD, "lib"),
                 "-Wl,-rpath," + os.path.join(BUILD, "lib"), "-ldbus-1", "-lpthread"]
         if daemon:
-            cmd += ["-lexpat"]
+            cmd += ["-lexpat", "-lsystemd"]
         p = run(cmd)
         if p.returncode != 0:
             raise InfraError("harness %s failed to compile:\n%s" % (name, p.stderr[-6000:]))
